@@ -891,11 +891,11 @@ def gen_cases(tier):
     cases = []
     cases += list(gen_depth1(P_STD, small=not thorough))
     if thorough:
-        cases += list(gen_depth2(P_STD, rnd, 6000))
-        cases += list(gen_depth3(P_STD, rnd, 1500))
-        cases += list(gen_random(rnd, 30, 50, (2, 3, 3, 4)))
-        cases += gen_kinds(rnd, P_STD, 250)
-        cases += gen_fn_histories(rnd, 160)
+        cases += list(gen_depth2(P_STD, rnd, 4000))
+        cases += list(gen_depth3(P_STD, rnd, 800))
+        cases += list(gen_random(rnd, 20, 50, (2, 3, 3, 4)))
+        cases += gen_kinds(rnd, P_STD, 120)
+        cases += gen_fn_histories(rnd, 100)
         cases += gen_holders(P_STD, rnd, None)
     else:
         cases += list(gen_depth2(P_STD, rnd, 200))
@@ -905,13 +905,23 @@ def gen_cases(tier):
         cases += gen_fn_histories(rnd, 12)
         cases += gen_holders(P_STD, rnd, 0)
     cases += gen_wild(P_STD, quick=not thorough)
-    cases += gen_malformed(rnd, cases, 1000 if thorough else 60)
+    cases += gen_malformed(rnd, cases, 600 if thorough else 60)
     return cases
 
 
 # ================================================================ running
 def run_impl(jlines, nproc=NPROC):
-    return lib.parallel_lines([lib.PY, IMPL, lib.REPO], jlines, nproc=nproc, env=lib.impl_env())
+    """like lib.parallel_lines, but with more chunks than workers for large runs (the cases differ a lot in
+    cost; at most `nproc` implementation processes run at a time)"""
+    if len(jlines) <= 2500:
+        return lib.parallel_lines([lib.PY, IMPL, lib.REPO], jlines, nproc=nproc, env=lib.impl_env())
+    from concurrent.futures import ThreadPoolExecutor
+    nchunks = nproc * 3
+    size = (len(jlines) + nchunks - 1) // nchunks
+    chunks = [jlines[i:i + size] for i in range(0, len(jlines), size)]
+    with ThreadPoolExecutor(nproc) as ex:
+        res = list(ex.map(lambda ch: lib.parallel_lines([lib.PY, IMPL, lib.REPO], ch, nproc=1, env=lib.impl_env()), chunks))
+    return [x for r in res for x in r]
 
 
 class ImplProc:
@@ -993,6 +1003,19 @@ def shrink_case(c, pred, budget=40):
             return pred(x)
         except Exception:
             return False
+    # the function prelude: none at all, else without its newest members
+    if c.get('pre'):
+        d = dict(c)
+        d['pre'] = []
+        if ok(d):
+            c = d
+        else:
+            while len(c['pre']) > 1:
+                d = dict(c)
+                d['pre'] = c['pre'][:-1]
+                if not ok(d):
+                    break
+                c = d
     if 'raw' in c:
         changed = True
         while changed and len(c['raw']) > 1:
@@ -1315,7 +1338,7 @@ def run(tier):
         'rule': 'cases = (function prelude, sequence of requests, notebook flag); families: every nesting context x '
                 'every write filler (INSERT / UPDATE / DELETE / INSERT UNLESS CONFLICT / modifying object function / '
                 'count() of those / modifying, wrapper, read-only, declared-Modifying scalar functions) at depth 1 '
-                f'(all), depth 2 ({"6000" if thorough else "200"} sampled), depth 3 (sampled); random typed trees over random '
+                f'(all), depth 2 ({"4000" if thorough else "200"} sampled), depth 3 (sampled); random typed trees over random '
                 'function schemas; every statement kind x {single, inside a transaction, in a script} x notebook flag; '
                 'transaction / savepoint / migration-block sequences; CREATE/ALTER/DROP FUNCTION histories; DDL holders '
                 '(alias, computed global, computed property, access policy, global default, index, pointer default, '
